@@ -294,6 +294,14 @@ class FunctionAnalysis:
                 cls = [self.resolve(x) for x in elts]
                 if cls and all(c in self.own.cat.term_classes for c in cls):
                     res += cls
+            # `type(x).__name__ == "Tensor"` (used where importing the class would be circular)
+            if isinstance(t, ast.Compare) and len(t.ops) == 1 and isinstance(t.ops[0], ast.Eq) and isinstance(t.comparators[0], ast.Constant) \
+                    and isinstance(t.comparators[0].value, str) and isinstance(t.left, ast.Attribute) and t.left.attr == "__name__" \
+                    and isinstance(t.left.value, ast.Call) and isinstance(t.left.value.func, ast.Name) and t.left.value.func.id == "type" \
+                    and len(t.left.value.args) == 1 and isinstance(t.left.value.args[0], ast.Name) and t.left.value.args[0].id == name:
+                cands = [fq for fq, tc_ in self.own.cat.term_classes.items() if tc_.name == t.comparators[0].value]
+                if len(cands) == 1:
+                    res += cands
         return res
 
     # ------------------------------------------------------------------ helpers
